@@ -482,14 +482,25 @@ class FakeSocket:
         if s:
             s.yield_op(Op('send', self))
             s.log('send', self.label, bytes(data))
-        if self.side == 'server':
-            self.conn.log_s2c += data
-            if not self.conn.client_closed:
-                self.conn.s2c += data
-        else:
-            self.conn.log_c2s += data
-            if not self.conn.server_closed:
-                self.conn.c2s += data
+        data = bytes(data)
+        parts = [data]
+        seg = getattr(NET, 'segment', None)
+        if s and seg is not None and len(data) >= 2 and seg.random() < 0.5:
+            # TCP may deliver one sendall in several segments: cut the data (half of the time between CR and LF) and let
+            # the scheduler run other threads before the rest arrives
+            cut = len(data) - 1 if (seg.random() < 0.5 and data.endswith(b'\r\n')) else seg.randrange(1, len(data))
+            parts = [data[:cut], data[cut:]]
+        for i, part in enumerate(parts):
+            if i > 0:
+                s.yield_op(Op('send-rest', self))
+            if self.side == 'server':
+                self.conn.log_s2c += part
+                if not self.conn.client_closed:
+                    self.conn.s2c += part
+            else:
+                self.conn.log_c2s += part
+                if not self.conn.server_closed:
+                    self.conn.c2s += part
 
     send = sendall
 
